@@ -162,9 +162,19 @@ def store2(ctx) -> List[Ob]:
 # ------------------------------------------------------------------ carriers
 
 
-def _site_key(call: ast.Call) -> str:
-    """stable key of a re-targeting call: receiver and method, not the argument text"""
-    return A.alpha_key(call.func) + "(...)"
+def _site_key(call: ast.Call, ctx=None, fn=None) -> str:
+    """stable key of a re-targeting call: receiver and method, not the argument text; locals that merely
+    name a selector (`latch = backedge_blocks[0]`) are read through, so that naming a sub-expression does
+    not change the key"""
+    f = call.func
+    if ctx is not None and fn is not None:
+        try:
+            from .common import expand_aliases
+
+            f = expand_aliases(ctx, fn, call.func)
+        except Exception:
+            f = call.func
+    return A.alpha_key(f) + "(...)"
 
 
 def _assign_parts(stmt):
@@ -479,7 +489,7 @@ def store4(ctx) -> List[Ob]:
     out: List[Ob] = []
     for rt in _retargets(ctx):
         fn, c = rt.fn, rt.call
-        key = _site_key(c)
+        key = _site_key(c, ctx, fn)
         where = ctx.where(fn, c)
         if rt.problems:
             # an element-wise comprehension over the block's own tuple is positional too
@@ -553,7 +563,7 @@ def store5(ctx) -> List[Ob]:
         if rt.method != "replace_jump_targets":
             continue
         fn, c, cfg = rt.fn, rt.call, rt.cfg
-        key = _site_key(c)
+        key = _site_key(c, ctx, fn)
         where = ctx.where(fn, c)
         admits, why = _admits(ctx, fn, rt.recv, "SyntheticBranch")
         if not admits:
@@ -647,7 +657,7 @@ def store6(ctx) -> List[Ob]:
         for c in calls:
             if id(c) in inner:
                 continue
-            key = _site_key(c)
+            key = _site_key(c, ctx, fn)
             where = ctx.where(fn, c)
             admits, why = _admits(ctx, fn, c.func.value, "RegionBlock")
             if not admits:
@@ -1284,7 +1294,11 @@ def store9(ctx) -> List[Ob]:
                         kinds.add("other")
                 src = kinds
             elif isinstance(a, ast.Call):
-                src = {"predecessor carrier"} if _graph_pop(_innermost_receiver(a)) else {"other"}
+                ir_ = _innermost_receiver(a)
+                if ir_ is not None and isinstance(ir_, ast.Call) and any(ir_ is cc for cc in ctor_calls):
+                    src = {"constructed here"}  # the constructor call written straight into add_block(..)
+                else:
+                    src = {"predecessor carrier"} if _graph_pop(ir_) else {"other"}
             if src and src <= {"constructed here", "predecessor carrier"}:
                 out.append(ok("STORE-9", fn.qualname, key, where, f"stores a block that is {' / '.join(sorted(src))}"))
             else:
